@@ -111,13 +111,115 @@ func c32Labels(c *an.Ctx) {
 				}
 				return (op == token.LEQ && k <= 63) || (op == token.LSS && k <= 64) || (op == token.EQL && k <= 63)
 			})
+			// the same test behind a package-local predicate: g(x) is true only where len(x) <= 63
+			for _, cl := range an.AllCalls(fn) {
+				cv := an.CallValue(cl)
+				g := an.Callee(cl).Static
+				if cv == nil || g == nil || g == fn || len(g.Blocks) == 0 || g.Pkg != fn.Pkg || len(g.Params) != 1 || len(cv.Call.Args) != 1 || !sameAsLabel(cv.Call.Args[0]) {
+					continue
+				}
+				if rs := g.Signature.Results(); rs.Len() != 1 || !types.Identical(rs.At(0).Type().Underlying(), types.Typ[types.Bool]) {
+					continue
+				}
+				if c32TrueImpliesFits(g) {
+					fits = fits.Union(an.BoolEdges(fn, []ssa.Value{cv}, true))
+				}
+			}
 			ok := len(fits) > 0 && an.GuardedBy(fn, nil, r, fits)
 			c.Check(ok, "O1", "R-CMP", name, "return-label<=len<=63", r.Pos(),
 				"the label is returned only where its own length was tested <= 63",
 				"a label is returned with a nil error on a path where len(label) <= 63 was not established for that very label: the produced host name can contain a DNS label longer than 63 characters")
 		}
 	}
-	c.Min("O1 successful label returns (InlineDNSLink, toDNSLabel)", n, 3)
+	c.Min("O1 successful label returns (InlineDNSLink, toDNSLabel)", n, 2)
+}
+
+// c32IsRebuild: v is the result of cid.NewCidV1 (checked by the NewCidV1 obligations), directly or
+// through a package-local function that returns such a result on every path.
+func c32IsRebuild(v ssa.Value, depth int) bool {
+	rs := an.Roots(v, nil)
+	if len(rs) == 0 {
+		return false
+	}
+	for _, r := range rs {
+		call, ok := r.(*ssa.Call)
+		if !ok {
+			return false
+		}
+		if an.M(c32Cid, "", "NewCidV1").Match(an.Callee(call)) {
+			continue
+		}
+		g := an.Callee(call).Static
+		if g == nil || len(g.Blocks) == 0 || depth >= 2 || !strings.HasPrefix(an.Callee(call).Pkg, an.Mod+"/") {
+			return false
+		}
+		rets := an.Returns(g)
+		if len(rets) == 0 {
+			return false
+		}
+		for _, ret := range rets {
+			if len(ret.Results) != 1 || !c32IsRebuild(ret.Results[0], depth+1) {
+				return false
+			}
+		}
+	}
+	return true
+}
+
+// c32TrueImpliesFits: the one-parameter predicate g returns true only where len(param) <= 63.
+func c32TrueImpliesFits(g *ssa.Function) bool {
+	prm := g.Params[0]
+	isFit := func(v ssa.Value, want bool) bool {
+		b, ok := v.(*ssa.BinOp)
+		if !ok {
+			return false
+		}
+		a, y, op := b.X, b.Y, b.Op
+		if _, isK := an.IntConst(a); isK {
+			a, y, op = y, a, an.SwapRel(op)
+		}
+		k, isK := an.IntConst(y)
+		call, isCall := a.(*ssa.Call)
+		if !isK || !isCall {
+			return false
+		}
+		if bi, ok := call.Call.Value.(*ssa.Builtin); !ok || bi.Name() != "len" {
+			return false
+		}
+		for _, r := range an.Roots(call.Call.Args[0], nil) {
+			if r != ssa.Value(prm) {
+				return false
+			}
+		}
+		if want {
+			return (op == token.LEQ && k <= 63) || (op == token.LSS && k <= 64)
+		}
+		return (op == token.GTR && k <= 63) || (op == token.GEQ && k <= 64)
+	}
+	fitEdges := an.GRelEdges(g, func(r an.GRel) bool {
+		return isFit(&ssa.BinOp{Op: r.Op, X: r.A, Y: r.B}, true)
+	})
+	rets := an.Returns(g)
+	if len(rets) == 0 {
+		return false
+	}
+	for _, r := range rets {
+		v := r.Results[0]
+		switch {
+		case c43IsConstBool(v, false):
+		case c43IsConstBool(v, true):
+			if len(fitEdges) == 0 || !an.GuardedBy(g, nil, r, fitEdges) {
+				return false
+			}
+		case isFit(v, true):
+		default:
+			if u, ok := v.(*ssa.UnOp); ok && u.Op == token.NOT && isFit(u.X, false) {
+				continue
+			}
+			return false
+		}
+	}
+	return true
 }
 
 // ---------------------------------------------------------------- O2
@@ -143,10 +245,20 @@ func c32Subdomain(c *an.Ctx) {
 	name := an.FuncName(fn)
 	// --- CID rebuild
 	nCid := 0
-	for _, g := range []*ssa.Function{fn, p.Func(c30Gw, "", "toDNSLabel")} {
-		if g == nil {
+	var cidFns []*ssa.Function
+	seenCidFn := map[*ssa.Function]bool{}
+	for _, g0 := range []*ssa.Function{fn, p.Func(c30Gw, "", "toDNSLabel")} {
+		if g0 == nil {
 			continue
 		}
+		for _, g := range c31WithCallees(g0) { // the rebuild may live in a package-local helper
+			if !seenCidFn[g] {
+				seenCidFn[g] = true
+				cidFns = append(cidFns, g)
+			}
+		}
+	}
+	for _, g := range cidFns {
 		for _, cl := range an.Calls(g, an.M(c32Cid, "", "NewCidV1")) {
 			nCid++
 			args := cl.Common().Args
@@ -161,6 +273,65 @@ func c32Subdomain(c *an.Ctx) {
 					_, isDecode := an.IsCallTo(r, an.M(c32Cid, "", "Decode"))
 					if !isParam && !isDecode {
 						okSrc = false
+					}
+				}
+			}
+			// inside a rebuild helper (cid, codec parameters): judge the codec at the helper's call sites
+			if okH && okSrc {
+				if sp, ok := src.(*ssa.Parameter); ok && sp.Parent() == g {
+					allParam := true
+					var cp *ssa.Parameter
+					for _, r := range an.Roots(args[0], nil) {
+						q, ok := r.(*ssa.Parameter)
+						if !ok || q.Parent() != g {
+							allParam = false
+						} else {
+							cp = q
+						}
+					}
+					if allParam && cp != nil {
+						si, ci := -1, -1
+						for i, q := range g.Params {
+							if q == sp {
+								si = i
+							}
+							if q == cp {
+								ci = i
+							}
+						}
+						okSites, nSites := true, 0
+						for _, cf := range cidFns {
+							for _, cs := range an.AllCalls(cf) {
+								if an.Callee(cs).Static != g || si >= len(cs.Common().Args) || ci >= len(cs.Common().Args) {
+									continue
+								}
+								nSites++
+								cidArg, codecArg := cs.Common().Args[si], cs.Common().Args[ci]
+								for _, r := range an.Roots(codecArg, nil) {
+									if t, ok := an.IsCallTo(r, an.M(c32Cid, "Cid", "Type")); ok {
+										same := false
+										for _, a := range an.Roots(an.Recv(t), nil) {
+											for _, b := range an.Roots(cidArg, nil) {
+												same = same || a == b
+											}
+										}
+										okSites = okSites && same
+										continue
+									}
+									if k, ok := an.ConstOf(r); ok {
+										if v, ok := constant.Uint64Val(k); ok && v == 0x72 {
+											continue
+										}
+									}
+									okSites = false
+								}
+							}
+						}
+						c.Check(okSites && nSites > 0, "O2", "R-FLOW", an.FuncName(g), "NewCidV1(codec,_)", cl.Pos(),
+							"at every call of the rebuild helper the codec is the same CID's Type() or libp2p-key",
+							"a call of the CID rebuild helper passes a codec that is neither the Type() of the CID it rebuilds nor libp2p-key (0x72)")
+						c.OK("O2", "R-FLOW", an.FuncName(g), "NewCidV1(_, original.Hash())", cl.Pos(), "the rebuilt CID carries the multihash of the helper's CID parameter")
+						continue
 					}
 				}
 			}
@@ -196,7 +367,7 @@ func c32Subdomain(c *an.Ctx) {
 				"cid.NewCidV1 gets a codec that is neither the original CID's Type() nor libp2p-key (0x72)")
 		}
 	}
-	c.Min("O2 cid.NewCidV1 rebuilds", nCid, 2)
+	c.Min("O2 cid.NewCidV1 rebuilds", nCid, 1)
 
 	// --- URL assembly
 	var reqP, hostP, pathP *ssa.Parameter
@@ -229,10 +400,38 @@ func c32Subdomain(c *an.Ctx) {
 	if !c.Need(pathP != nil && hostP != nil && okSep && okCnt && constant.StringVal(sep) == "/" && cnt == 4, "parts := strings.SplitN(path, \"/\", 4)") {
 		return
 	}
+	// the function that assembles the redirect URL: toSubdomainURL itself or the package-local
+	// function it delegates to (found by role: it contains the url.Parse call); values that are
+	// parameters of that function are traced to the arguments of its call in toSubdomainURL
+	afn, acall := fn, (*ssa.Call)(nil)
+	if len(an.Calls(fn, an.M("net/url", "", "Parse"))) == 0 {
+		for _, cl := range an.AllCalls(fn) {
+			g := an.Callee(cl).Static
+			if cv := an.CallValue(cl); cv != nil && g != nil && g != fn && len(g.Blocks) > 0 && g.Pkg == fn.Pkg && len(an.Calls(g, an.M("net/url", "", "Parse"))) > 0 {
+				afn, acall = g, cv
+			}
+		}
+	}
+	var res func(v ssa.Value) []ssa.Value
+	res = func(v ssa.Value) []ssa.Value {
+		var out []ssa.Value
+		for _, r := range an.Roots(v, nil) {
+			if prm, ok := r.(*ssa.Parameter); ok && acall != nil && prm.Parent() == afn {
+				for i, q := range afn.Params {
+					if q == prm && i < len(acall.Call.Args) {
+						out = append(out, an.Roots(acall.Call.Args[i], nil)...)
+					}
+				}
+				continue
+			}
+			out = append(out, r)
+		}
+		return out
+	}
 	seg := func(v ssa.Value) int64 {
 		// v is a load of parts[k] (possibly through phis): returns k or -1
 		k := int64(-1)
-		for _, r := range an.Roots(v, nil) {
+		for _, r := range res(v) {
 			u, ok := r.(*ssa.UnOp)
 			if !ok || u.Op != token.MUL {
 				if cst, ok := an.ConstOf(r); ok && cst.Kind() == constant.String && constant.StringVal(cst) == "" {
@@ -252,8 +451,8 @@ func c32Subdomain(c *an.Ctx) {
 		}
 		return k
 	}
-	parses := an.Calls(fn, an.M("net/url", "", "Parse"))
-	if !c.Need(len(parses) == 1, "one url.Parse in toSubdomainURL") {
+	parses := an.Calls(afn, an.M("net/url", "", "Parse"))
+	if !c.Need(len(parses) == 1, "one url.Parse in toSubdomainURL or in the package-local function it delegates the URL assembly to") {
 		return
 	}
 	up := an.CallValue(parses[0])
@@ -306,7 +505,10 @@ func c32Subdomain(c *an.Ctx) {
 			}
 			if elems[0] != nil && elems[1] != nil && elems[2] != nil {
 				nsOK := seg(unwrap(elems[1])) == 1
-				hostOK := unwrap(elems[2]) == ssa.Value(hostP)
+				hostOK := true
+				for _, hr := range res(unwrap(elems[2])) {
+					hostOK = hostOK && hr == ssa.Value(hostP)
+				}
 				okFmt = nsOK && hostOK
 				detail = fmt.Sprintf("redirect host is not <rootID>.<ns = path segment 1>.<hostname parameter>: nsOK=%v hostOK=%v — the redirect points to another namespace or gateway host", nsOK, hostOK)
 				// the label: every source of rootID names the content of path segment 2
@@ -317,7 +519,7 @@ func c32Subdomain(c *an.Ctx) {
 					if depth > 6 {
 						return false
 					}
-					for _, r := range an.Roots(v, nil) {
+					for _, r := range res(v) {
 						switch {
 						case isSeg2(r):
 						default:
@@ -332,7 +534,7 @@ func c32Subdomain(c *an.Ctx) {
 							switch {
 							case ci.Name == "toDNSLabel" && ci.Pkg == an.Mod+"/"+c30Gw:
 								// (string of the rebuilt CID, rebuilt CID): the rebuilt CID is checked by the NewCidV1 obligations
-								if _, ok := an.IsCallTo(call.Call.Args[1], an.M(c32Cid, "", "NewCidV1")); !ok {
+								if !c32IsRebuild(call.Call.Args[1], 0) {
 									return false
 								}
 							case ci.Name == "InlineDNSLink" && ci.Pkg == an.Mod+"/"+c30Gw:
@@ -353,7 +555,7 @@ func c32Subdomain(c *an.Ctx) {
 									return false
 								}
 							case ci.Name == "StringOfBase" && ci.Recv == "Cid":
-								if _, ok := an.IsCallTo(an.Recv(call), an.M(c32Cid, "", "NewCidV1")); !ok {
+								if !c32IsRebuild(an.Recv(call), 0) {
 									return false
 								}
 							default:
@@ -376,7 +578,7 @@ func c32Subdomain(c *an.Ctx) {
 
 	// stores into the parsed URL
 	var stRawQ, stPath, stRawFrag, stFrag []*ssa.Store
-	an.Instrs(fn, func(in ssa.Instruction) {
+	an.Instrs(afn, func(in ssa.Instruction) {
 		st, ok := in.(*ssa.Store)
 		if !ok {
 			return
@@ -401,12 +603,21 @@ func c32Subdomain(c *an.Ctx) {
 		if !ok {
 			return false
 		}
-		rb, ok := c32FieldLoadOf(b, "net/http", "Request", "URL")
-		return ok && rb == ssa.Value(reqP)
+		rs := res(b)
+		if len(rs) == 0 {
+			return false
+		}
+		for _, x := range rs {
+			rb, ok := c32FieldLoadOf(x, "net/http", "Request", "URL")
+			if !ok || rb != ssa.Value(reqP) {
+				return false
+			}
+		}
+		return true
 	}
 	// success returns: u.String()
 	var succ []*ssa.Return
-	for _, r := range an.Returns(fn) {
+	for _, r := range an.Returns(afn) {
 		if len(r.Results) != 2 || !an.IsNilConst(r.Results[1]) {
 			continue
 		}
@@ -424,7 +635,7 @@ func c32Subdomain(c *an.Ctx) {
 		okQ = okQ && fromReqURL(st.Val, "RawQuery")
 	}
 	for _, r := range succ {
-		okQ = okQ && an.MustPrecede(fn, r, an.AsInstrs(stRawQ))
+		okQ = okQ && an.MustPrecede(afn, r, an.AsInstrs(stRawQ))
 	}
 	c.Check(okQ, "O2", "R-FLOW", name, "u.RawQuery=r.URL.RawQuery", fn.Pos(), "the query string is copied verbatim on every redirect",
 		"the redirect URL does not get RawQuery = r.URL.RawQuery on every path: query parameters are lost or altered by the redirect")
@@ -440,7 +651,7 @@ func c32Subdomain(c *an.Ctx) {
 			restVals = append(restVals, st.Val)
 		}
 		al := an.Aliases(restVals...)
-		empty := an.CondEdges(fn, func(atom ssa.Value) (bool, bool) {
+		empty := an.CondEdges(afn, func(atom ssa.Value) (bool, bool) {
 			b, ok := atom.(*ssa.BinOp)
 			if !ok || (b.Op != token.EQL && b.Op != token.NEQ) {
 				return false, false
@@ -451,7 +662,7 @@ func c32Subdomain(c *an.Ctx) {
 			eq := b.Op == token.EQL
 			return eq, !eq
 		})
-		empty = empty.Union(an.GRelEdges(fn, func(rel an.GRel) bool {
+		empty = empty.Union(an.GRelEdges(afn, func(rel an.GRel) bool {
 			a, b, op := rel.A, rel.B, rel.Op
 			if _, ok := an.IntConst(a); ok {
 				a, b, op = b, a, an.SwapRel(op)
@@ -471,7 +682,7 @@ func c32Subdomain(c *an.Ctx) {
 			blocked[st] = true
 		}
 		for _, r := range succ {
-			if an.Reaches(fn, up, r, empty, blocked) {
+			if an.Reaches(afn, up, r, empty, blocked) {
 				okP = false
 			}
 		}
@@ -480,13 +691,25 @@ func c32Subdomain(c *an.Ctx) {
 		"the redirect URL's Path is not the remainder of the request path (parts[3]) on every path with a non-empty remainder: the redirect drops or replaces the sub-path")
 	// RawFragment => Fragment
 	for _, st := range stRawFrag {
-		ok := an.Around(fn, st, an.AsInstrs(stFrag))
+		ok := an.Around(afn, st, an.AsInstrs(stFrag))
 		okVal := fromReqURL(st.Val, "RawFragment")
 		c.Check(ok && okVal, "O2", "R-PAIR", name, "u.RawFragment=>u.Fragment", st.Pos(), "RawFragment is set together with Fragment",
 			"u.RawFragment is stored without u.Fragment: net/url renders a fragment only when Fragment != \"\" (RawFragment is just an encoding hint), so the request's fragment is silently dropped from the redirect URL")
 	}
 	for _, st := range stFrag {
 		c.Check(fromReqURL(st.Val, "Fragment"), "O2", "R-FLOW", name, "u.Fragment=r.URL.Fragment", st.Pos(), "Fragment copied from the request URL", "u.Fragment is not r.URL.Fragment")
+	}
+	if acall != nil {
+		// toSubdomainURL hands the assembled URL on unchanged
+		okFwd := false
+		r0 := an.Result(acall, 0)
+		for _, r := range an.Returns(fn) {
+			if len(r.Results) == 2 && len(r0) > 0 && an.Aliases(r0...)[r.Results[0]] {
+				okFwd = true
+			}
+		}
+		c.Check(okFwd, "O2", "R-FLOW", name, "return="+afn.Name()+"(..)", acall.Pos(), "the assembled URL is returned unchanged",
+			"toSubdomainURL does not return the URL assembled by "+an.FuncName(afn))
 	}
 }
 
@@ -747,18 +970,90 @@ func c32HostToPath(c *an.Ctx) {
 				"the path rewrite does not end with the original r.URL.Path: the remainder of the request is dropped or replaced when mapping the host back to a content path")
 			// prefix leaves, expanding phis of prefixes (pathPrefix variable)
 			var problems []string
-			var check func(v ssa.Value, depth int, guarded func(set an.EdgeSet) bool)
-			check = func(v ssa.Value, depth int, guarded func(set an.EdgeSet) bool) {
-				if depth > 4 {
+			// frame: the function a prefix value lives in; parameters of a package-local helper are
+			// traced to the arguments of the call that led into it
+			type frame struct {
+				fn   *ssa.Function
+				call *ssa.Call // call in up.fn that entered fn (nil for the handler itself)
+				up   *frame
+			}
+			var rootsIn func(fr *frame, v ssa.Value, depth int) []ssa.Value
+			rootsIn = func(fr *frame, v ssa.Value, depth int) []ssa.Value {
+				var out []ssa.Value
+				for _, r := range an.Roots(v, nil) {
+					if prm, ok := r.(*ssa.Parameter); ok && fr.call != nil && prm.Parent() == fr.fn && depth < 4 {
+						for k, q := range fr.fn.Params {
+							if q == prm && k < len(fr.call.Call.Args) {
+								out = append(out, rootsIn(fr.up, fr.call.Call.Args[k], depth+1)...)
+							}
+						}
+						continue
+					}
+					out = append(out, r)
+				}
+				return out
+			}
+			detailsIdx := func(fr *frame, x ssa.Value) int {
+				idx := -1
+				rs := rootsIn(fr, x, 0)
+				if len(rs) == 0 {
+					return -1
+				}
+				for _, r := range rs {
+					ex, ok := r.(*ssa.Extract)
+					if !ok {
+						return -1
+					}
+					cl, ok := ex.Tuple.(*ssa.Call)
+					if !ok || an.Callee(cl).Name != "knownSubdomainDetails" {
+						return -1
+					}
+					if a := an.Args(cl); len(a) != 1 || !effective(a[0]) {
+						return -1
+					}
+					if idx >= 0 && idx != ex.Index {
+						return -1
+					}
+					idx = ex.Index
+				}
+				return idx
+			}
+			var check func(fr *frame, v ssa.Value, depth int, guarded func(set an.EdgeSet) bool)
+			check = func(fr *frame, v ssa.Value, depth int, guarded func(set an.EdgeSet) bool) {
+				if depth > 6 {
 					problems = append(problems, "prefix too deep")
 					return
 				}
 				if ph, ok := v.(*ssa.Phi); ok {
 					for i, e := range ph.Edges {
 						i := i
-						check(e, depth+1, func(set an.EdgeSet) bool { return an.PhiEdgeGuarded(fn, ph, i, set) })
+						check(fr, e, depth+1, func(set an.EdgeSet) bool { return an.PhiEdgeGuarded(fr.fn, ph, i, set) })
 					}
 					return
+				}
+				// a helper parameter: continue with the argument, in the caller's frame
+				if prm, ok := v.(*ssa.Parameter); ok && fr.call != nil && prm.Parent() == fr.fn {
+					for k, q := range fr.fn.Params {
+						if q == prm && k < len(fr.call.Call.Args) {
+							up, call := fr.up, fr.call
+							check(up, call.Call.Args[k], depth+1, func(set an.EdgeSet) bool { return len(set) > 0 && an.GuardedBy(up.fn, nil, call, set) })
+						}
+					}
+					return
+				}
+				// the prefix computed by a package-local helper: every value it can return
+				if call, ok := v.(*ssa.Call); ok {
+					g := an.Callee(call).Static
+					if g != nil && g != fr.fn && len(g.Blocks) > 0 && g.Pkg == outer.Pkg && g.Name() != "stripPort" && g.Name() != "UninlineDNSLink" {
+						nf := &frame{fn: g, call: call, up: fr}
+						for _, ret := range an.Returns(g) {
+							ret := ret
+							if len(ret.Results) == 1 {
+								check(nf, ret.Results[0], depth+1, func(set an.EdgeSet) bool { return len(set) > 0 && an.GuardedBy(g, nil, ret, set) })
+							}
+						}
+						return
+					}
 				}
 				ls := c32ConcatLeaves(v)
 				// expected shapes: "/" ns "/" rootID   |  "/ipns/" X
@@ -771,47 +1066,30 @@ func c32HostToPath(c *an.Ctx) {
 						dyn = append(dyn, l)
 					}
 				}
-				detailsIdx := func(x ssa.Value) int {
-					idx := -1
-					for _, r := range an.Roots(x, nil) {
-						ex, ok := r.(*ssa.Extract)
-						if !ok {
-							return -1
-						}
-						cl, ok := ex.Tuple.(*ssa.Call)
-						if !ok || an.Callee(cl).Name != "knownSubdomainDetails" {
-							return -1
-						}
-						if a := an.Args(cl); len(a) != 1 || !effective(a[0]) {
-							return -1
-						}
-						if idx >= 0 && idx != ex.Index {
-							return -1
-						}
-						idx = ex.Index
-					}
-					return idx
-				}
 				switch {
 				case len(dyn) == 2 && len(consts) == 2 && consts[0] == "/" && consts[1] == "/":
-					if detailsIdx(dyn[0]) != 2 || detailsIdx(dyn[1]) != 3 {
+					if detailsIdx(fr, dyn[0]) != 2 || detailsIdx(fr, dyn[1]) != 3 {
 						problems = append(problems, "prefix is not \"/\"+ns+\"/\"+rootID of knownSubdomainDetails(effective host)")
 					}
 				case len(dyn) == 1 && len(consts) == 1 && consts[0] == "/ipns/":
 					x := dyn[0]
 					if cl, ok := an.IsCallTo(x, an.M(c30Gw, "", "stripPort")); ok {
-						if !effective(cl.Call.Args[0]) {
+						okEff := true
+						for _, r := range rootsIn(fr, cl.Call.Args[0], 0) {
+							okEff = okEff && effective(r)
+						}
+						if !okEff {
 							problems = append(problems, "DNSLink prefix is not built from the effective host")
 						}
 					} else if cl, ok := an.IsCallTo(x, an.M(c30Gw, "", "UninlineDNSLink")); ok {
-						if detailsIdx(cl.Call.Args[0]) != 3 {
+						if detailsIdx(fr, cl.Call.Args[0]) != 3 {
 							problems = append(problems, "un-inlined DNSLink name is not derived from the subdomain's root id")
 						} else {
 							// the un-inlined name replaces the label only where it has a DNSLink record itself,
 							// or where the label as written has none
 							fq := an.Aliases(cl)
-							set := an.CallEdges(fn, an.M(c30Gw, "", "hasDNSLinkRecord"), 2, func(v ssa.Value) bool { return fq[v] }, true).Union(
-								an.CallEdges(fn, an.M(c30Gw, "", "hasDNSLinkRecord"), 2, func(v ssa.Value) bool { return detailsIdx(v) == 3 }, false))
+							set := an.CallEdges(fr.fn, an.M(c30Gw, "", "hasDNSLinkRecord"), 2, func(v ssa.Value) bool { return fq[v] }, true).Union(
+								an.CallEdges(fr.fn, an.M(c30Gw, "", "hasDNSLinkRecord"), 2, func(v ssa.Value) bool { return detailsIdx(fr, v) == 3 }, false))
 							if !guarded(set) {
 								problems = append(problems, "the un-inlined DNSLink name is used on a path where neither hasDNSLinkRecord(un-inlined name) is true nor hasDNSLinkRecord(label as written) is false: a label that is itself a DNSLink name is served as a different name")
 							}
@@ -823,16 +1101,17 @@ func c32HostToPath(c *an.Ctx) {
 					problems = append(problems, fmt.Sprintf("unrecognised prefix shape (consts %q, %d dynamic parts)", consts, len(dyn)))
 				}
 			}
+			root := &frame{fn: fn}
 			if okTail {
 				pre := leaves[:len(leaves)-1]
 				top := func(set an.EdgeSet) bool { return len(set) > 0 && an.GuardedBy(fn, nil, st, set) }
 				if len(pre) == 1 {
-					check(pre[0], 0, top)
+					check(root, pre[0], 0, top)
 				} else {
 					// rebuild: the prefix is a concatenation whose leaves are pre
 					// (st.Val = ((a+b)+c)+tail) : check the left operand of the outermost ADD
 					if b, ok := st.Val.(*ssa.BinOp); ok {
-						check(b.X, 0, top)
+						check(root, b.X, 0, top)
 					}
 				}
 			}
@@ -850,5 +1129,5 @@ func c32HostToPath(c *an.Ctx) {
 				"host→path rewrite: "+strings.Join(problems, "; ")+" — the content path served differs from the one the host names")
 		})
 	}
-	c.Min("O5 stores to r.URL.Path in the hostname handler", n, 3)
+	c.Min("O5 stores to r.URL.Path in the hostname handler", n, 1)
 }
